@@ -288,6 +288,8 @@ class Lib:
     def next_flat(self, st, itv: VIter, line):
         E = self.E
         it = st.iters[itv.iid]
+        if it.closed:
+            raise E.RaiseEx("StopIteration", line)
         if st.branch(it.done, f"next-done@{line}"):
             raise E.RaiseEx("StopIteration", line)
         if st.branch(it.pos == it.failat, f"next-fail@{line}"):
@@ -484,14 +486,26 @@ class Lib:
         if is_call(it, "zip"):
             if is_call(it, "zip") and isinstance(it.func, ast.Attribute):
                 eng.used_assumptions.add("A-ASYNC")
+            closes = isinstance(it.func, ast.Attribute)
             subs = [self.make_source(st, a, K, node) for a in it.args]
 
             def pull_zip():
                 # zip pulls left to right and stops at the first exhausted
                 # source (elements already pulled from earlier ones are lost)
                 vals = []
-                for sfn in subs:
-                    vals.append(sfn())
+                try:
+                    for sfn in subs:
+                        vals.append(sfn())
+                except E.RaiseEx as ex:
+                    if closes and ex.info == "for-source":
+                        # asyncstdlib.zip calls aclose() on its inputs when it
+                        # finishes: an async-generator source is finished
+                        # for good, whatever it still held
+                        for sfn in subs:
+                            vi = getattr(sfn, "viter", None)
+                            if vi is not None:
+                                st.iters[vi.iid].closed = True
+                    raise
                 return VTuple(vals)
             return pull_zip
         if is_call(it, "range"):
@@ -543,6 +557,8 @@ class Lib:
                     if ex.cls == "StopIteration":
                         stop()
                     raise
+            if isinstance(srcv, VIter):
+                pull_iter.viter = srcv
             return pull_iter
         raise E.Unsupported(f"for over {srcv!r} at line {line}")
 
